@@ -270,6 +270,7 @@ func (c10) Class(e Ev) string {
 func (c10) Table(rows []Ev, tier string, seed int64, rep *TableReport) {
 	r := rand.New(rand.NewSource(seed))
 	for bi, row := range rows {
+		tick([]Ev{row})
 		steps := toList(row["steps"])
 		st := scte35.NewState()
 		objs := map[string]scte35.SegmentationDescriptor{}
